@@ -1,6 +1,7 @@
 import Adlt.Remote.Proofs
 import Adlt.Remote.IncrProofs
 import Adlt.Remote.Late
+import Adlt.Remote.TimeLookup
 import Adlt.Gen.Consts
 /-! # C16 — streams deliver exactly the requested window of the filtered log; paging and lookups   (partial)
 
@@ -49,6 +50,18 @@ theorem C16_search_paging (seq : List Nat) (ms : List RMsg) (fs : FSpec) (i maxR
 theorem C16_lookup_first_not_before (seq : List Nat) (p : Nat) (hs : seq.Pairwise (· < ·)) :
     (∀ i, i < lowerBound seq p → ∃ q, seq[i]? = some q ∧ q < p) ∧
     (∀ i q, lowerBound seq p ≤ i → seq[i]? = some q → p ≤ q) := lowerBound_spec seq p hs
+
+/-- time lookups: the model answers with the first file position whose time - reception time for a control request, otherwise
+    lifecycle start + time stamp but not later than the reception time: the key of the time sort - is not before the wanted
+    one: everything in front is earlier, the message there is not; on a file ordered by that time (a file opened with `sort`)
+    nothing from there on is earlier, and the position is the only one with these two properties - i.e. it is what a binary
+    search (`partition_point`) over the file returns -/
+theorem C16_time_lookup (ms : List RMsg) (t : Nat) :
+    (∀ i m, i < timePos ms t → ms[i]? = some m → m.time < t) ∧ (∀ m, ms[timePos ms t]? = some m → t ≤ m.time) ∧
+    (ms.Pairwise (fun a b => a.time ≤ b.time) → ∀ i m, timePos ms t ≤ i → ms[i]? = some m → t ≤ m.time) ∧
+    (∀ p', p' ≤ ms.length → (∀ i m, i < p' → ms[i]? = some m → m.time < t) → (∀ i m, p' ≤ i → ms[i]? = some m → t ≤ m.time) →
+      p' = timePos ms t) :=
+  ⟨(timePos_spec ms t).1, (timePos_spec ms t).2, timePos_sorted ms t, fun p' hle h1 h2 => timePos_unique ms t p' hle h1 h2⟩
 
 /-! ## every arrival pattern, every chunking, every window change  (`Inc`: `process_stream_new_msgs` + the sender) -/
 
